@@ -108,3 +108,69 @@ Example F8_control :
   exists t, exec DGlobal 3000 f8_control = Done t /\ C16_ok t = true /\ C03_ok t = true /\
             In (ENotify 2 (Some CDrop)) t /\ In (ENotify 3 (Some CDrop)) t.
 Proof. exact F8_control_proved. Qed.
+
+(** The leak conjunct: final-configuration argument (R/C16Leak.v, C16Leak2.v, C16Leak3.v, C16LeakEx.v).
+    Proved: the configuration in which the leak report is computed ([C16_final_state], both deferrer kinds: no Stakker
+    alive, empty environment / frame stack / lazy queue / idle queue / timers; closure instances left in the main queue
+    were parked after the last Core::new); with the global / thread-local deferrer every reported leak of a closure
+    instance / user Ret / termination notifier / actor value is an object of that main queue or of an actor cell still in
+    the table ([C16_leak_located], exact census); hence nothing of these four kinds leaks in a run that creates no actor
+    and whose last flush round parks nothing ([C16_no_container_leak_settled]; both hypotheses decidable on the trace), and
+    C16_ok holds for such a run if moreover it creates no token / Fwd closure / orphaned value ([C16_no_leak_settled]).
+    "No actor at all" alone is NOT sufficient: [C16_epilogue_depth] (a chain of Ret Drop handlers longer than the two
+    flush rounds of the epilogue leaves a parked closure; no class flag).
+    Not proved: the same for runs with actors whose cells are all freed (reference-cycle-free programs): needs the
+    reference census of LinRef*.v as an EQUALITY (count = holders, below saturation) and an exact token / Fwd-object census. *)
+From Stk Require Import R.Lin R.LinStep R.LinLive R.C16Leak R.C16Leak2 R.C16Leak3 R.C16LeakEx.
+
+Theorem C16_exec_final : forall (d : dkind) (p : list top) (fuel : nat) (t : list ev),
+  exec d fuel p = Done t -> exists s, LinStep.reach d p [MLeaks] s /\ t = final_of s.
+Proof. exact exec_final. Qed.
+Print Assumptions C16_exec_final.
+
+Theorem C16_final_state : forall (d : dkind) (p : list top) (s : st), LinStep.reach d p [MLeaks] s ->
+  alive s = false /\ env s = [] /\ frames s = [] /\ lazyq s = [] /\ idleq s = [] /\ timers s = [] /\
+  (has_real (mainq s) = true -> sub_since_new (tr s) = true) /\ nlk (tr s) = true.
+Proof. exact final_state. Qed.
+Print Assumptions C16_final_state.
+
+Theorem C16_leak_located : forall (p : list top) (s : st) (x : res) (k i : N),
+  LinStep.reach DGlobal p [MLeaks] s -> tok x = Some (k, i) ->
+  In (ELeak k i) (final_of s) -> 1 <= cq x (mainq s) + cacts x (actors s).
+Proof. exact leak_located. Qed.
+Print Assumptions C16_leak_located.
+
+Theorem C16_no_container_leak_settled : forall (p : list top) (fuel : nat) (t : list ev),
+  exec DGlobal fuel p = Done t -> settled t = true -> no_actor t = true ->
+  forall k i, In (ELeak k i) t -> K16_lin k = false.
+Proof. exact no_lin_leak. Qed.
+Print Assumptions C16_no_container_leak_settled.
+
+Theorem C16_no_leak_settled : forall (p : list top) (fuel : nat) (t : list ev),
+  exec DGlobal fuel p = Done t -> settled t = true -> no_actor t = true -> simple16 t = true -> C16_ok t = true.
+Proof. exact C16_ok_settled. Qed.
+Print Assumptions C16_no_leak_settled.
+
+Example C16_no_leak_example :
+  exists t, exec DGlobal 3000 plain_prog = Done t /\
+            settled t = true /\ no_actor t = true /\ simple16 t = true /\
+            (forall k i, ~ In (ELeak k i) t) /\ C16_ok t = true /\
+            has (fun e => match e with ESub QMain _ false => true | _ => false end) t = true /\
+            has (fun e => match e with ESub QLazy _ false => true | _ => false end) t = true /\
+            has (fun e => match e with ESub QIdle _ false => true | _ => false end) t = true /\
+            has (fun e => match e with ESub QTimer _ false => true | _ => false end) t = true /\
+            has (fun e => match e with ETimerDel TMax _ true => true | _ => false end) t = true /\
+            has (fun e => match e with ERet _ (Some _) => true | _ => false end) t = true /\
+            has (fun e => match e with ERet _ None => true | _ => false end) t = true /\
+            has (fun e => match e with ERun _ _ QTimer => true | _ => false end) t = true /\
+            has (fun e => match e with EDrop _ (Some QTimer) _ => true | _ => false end) t = true /\
+            has (fun e => match e with EDrop _ (Some QIdle) _ => true | _ => false end) t = true /\
+            has (fun e => match e with EDrop _ (Some QMain) _ => true | _ => false end) t = true /\
+            (10 <=? Z.of_nat (length (filter (fun e => match e with EClo _ _ => true | _ => false end) t))) = true.
+Proof. exact no_leak_nontrivial. Qed.
+
+(* finding EpilogueDepth: a program without any actor leaks a parked closure; no class flag *)
+Example C16_epilogue_depth :
+  exists t, exec DGlobal 3000 deep_prog = Done t /\ no_actor t = true /\ simple16 t = true /\ no_class_flag t = true /\
+            settled t = false /\ has (fun e => match e with ELeak 0 3 => true | _ => false end) t = true /\ C16_ok t = false.
+Proof. exact EpilogueDepth_refuted. Qed.
